@@ -317,7 +317,9 @@ func Main(t *testing.T, sp Spec) {
 		d := &dog{fire: func(kind string, c Case) {
 			p.Violation(wedgeKey(c, kind), wedgeDetail(c, kind), c)
 			p.End(true, "replay", "replay of one recorded case")
-			os.Exit(3)
+			// the test goroutine is stuck inside the call for good; the result line is written, so leave
+			// with status 0 (the runner treats a non-zero status of a replay as a harness crash)
+			os.Exit(0)
 		}}
 		go d.watch()
 		checkCase(st, d, &sp, rc)
